@@ -398,12 +398,46 @@ def r5(ctx):
                 ctx.ob("R5", okd, "the attribute column (column %d, '' when absent) is parsed with the supplied dialect (None = infer)" % (ai + 1), func=ffl,
                        sig="attribute column parsed: %s" % a if okd else "attribute parser called with %s / %s" % (a, {k: nm(v) for k, v in (sk[0][2] if sk else {}).items()}),
                        nontrivial=False)
-    splits = [c for c in calls_in(ffl.node) if call_attr(c) == "split" and len(c.args) == 2]
-    for c in splits:
-        ok = isinstance(c.args[1], ast.Constant) and c.args[1].value == len(gk) - 1 and isinstance(c.args[0], ast.Constant) and c.args[0].value is None
-        ctx.ob("R5", ok, "the non-strict form splits on blanks at most %d times (9 columns)" % (len(gk) - 1), node=c, func=ffl,
-               sig="blank split %s" % norm(c))
-    ctx.ob("R5", len(splits) >= 1, "the non-strict form accepts blank-separated columns", func=ffl, sig="%d blank split(s) with maxsplit" % len(splits), nontrivial=False)
+    # ---- the non-strict form: blank-separated columns, at most nine of them (blanks inside the attribute column survive)
+    for sep in (" ", "  "):
+        cols = [Sym("c%d" % (i + 1), "str", True) for i in range(len(gk) + 1)]
+        parts = []
+        for i, c in enumerate(cols):
+            if i:
+                parts.append(sep)
+            parts.append(c)
+        line = AStr(parts + ["\n"])
+        it = Interp(ctx, {"parser._split_keyvals": sk_summary})
+        it.hole_free_of = " \t\n\r"
+        try:
+            traces = it.run(ffl, {"line": line, "dialect": None, "strict": False, "keep_order": False})
+        except Unsupported as e:
+            ctx.ob("R5", False, "feature_from_line (non-strict) is within the analysable subset", func=ffl, sig="feature_from_line not analysable: %s" % e)
+            continue
+        for t in traces:
+            cons = [e for e in t.events if e[0] == "construct"]
+            sk = [e for e in t.events if e[0] == "split_keyvals"]
+            def nm(v):
+                if isinstance(v, Sym):
+                    return v.name
+                if isinstance(v, AStr):
+                    return "".join(p if isinstance(p, str) else p.name for p in v.parts)
+                if isinstance(v, list):
+                    return [nm(x) for x in v]
+                return v
+            ok = t.result[0] == "return" and len(cons) == 1 and len(sk) == 1
+            got = None
+            if ok:
+                kw = cons[0][3]
+                got = {k: nm(kw.get(k)) for k in gk[:-1]}
+                got["<attribute text>"] = nm(sk[0][1][0]) if sk[0][1] else None
+                got["extra"] = nm(kw.get("extra"))
+                exp = {k: "c%d" % (i + 1) for i, k in enumerate(gk[:-1])}
+                exp["<attribute text>"] = "c%d%sc%d" % (len(gk), sep, len(gk) + 1)
+                exp["extra"] = []
+                ok = got == exp or (got["extra"] in ([], None) and {k: v for k, v in got.items() if k != "extra"} == {k: v for k, v in exp.items() if k != "extra"})
+            ctx.ob("R5", ok, "the non-strict form splits on runs of blanks at most %d times: columns 1-8 are the fixed fields and the rest of the line, blanks included, is the attribute column (separator %r)" % (len(gk) - 1, sep),
+                   func=ffl, sig="non-strict line split into nine columns" if ok else "non-strict line (separator %r): %s" % (sep, t.result[:2] if got is None else sorted((k, str(v)) for k, v in got.items() if exp.get(k) != v)))
     # ---- printing: the line template of Feature.__unicode__, by abstract evaluation over a symbolic feature
     uni = require_func(ctx, "feature.Feature.__unicode__")
     from ..absint import Interp, Sym, Opaque, AStr, Unsupported
@@ -526,8 +560,6 @@ def check(ctx):
     for f_ in closure(ctx, rc):
         c07.no_dialect_mutation(ctx, f_, "R6")
     c07.r_printer(ctx, rule="R6")
-    c07.r2_r3(ctx)
-    c07.r_decode_layer(ctx, rule="R6")
     c07.r_roundtrip(ctx, rule="R6")
     for o in ctx.obs[n0:]:
         o.rule = "C01.R6"
